@@ -4,7 +4,7 @@
    (mutual induction on the space), and that sequence computes the entry-wise
    result at every leaf under positional aliasing (induction on the sequence). *)
 From Coq Require Import ZArith Lia List Bool.
-From Verif Require Import Base.Num Base.Vec C01.Syntax Gen.Lincomb C01.Carriers C01.Model C01.Laws
+From Verif Require Import Base.Num Base.Vec C01.Syntax Gen.Lincomb Gen.SpaceOps C01.Carriers C01.Model C01.Laws
   C01.Proofs C01.ModelSpace.
 Import ListNotations.
 Local Open Scope num_scope.
@@ -137,6 +137,69 @@ Proof.
 Qed.
 End Seq.
 
+(* ---------- the regenerated call conventions (Gen/SpaceOps.v) ----------
+   These facts are about the CURRENT source: each delegation passes its arguments through in
+   the order (a, x1, b, x2, out) / (x1, x2, out), and the two tensor ufunc calls write
+   multiply / divide of (x1, x2) into out.  A source change that permutes or drops an
+   argument, changes the ufunc or adds a keyword (e.g. where=) breaks them or the translator. *)
+Lemma calls_are_identity :
+  tensor_lincomb_call = (SA, X1, SB, X2, OUT) /\ pspace_lincomb_call = (SA, X1, SB, X2, OUT)
+  /\ discr_lincomb_call = (SA, X1, SB, X2, OUT)
+  /\ tensor_multiply_call = (UMul, X1, X2, OUT) /\ tensor_divide_call = (UDiv, X1, X2, OUT)
+  /\ pspace_multiply_call = (X1, X2, OUT) /\ pspace_divide_call = (X1, X2, OUT)
+  /\ discr_multiply_call = (X1, X2, OUT) /\ discr_divide_call = (X1, X2, OUT)
+  /\ space_lincomb1_call = (SA, X1, SK 0, X1, OUT) /\ space_lincomb2_call = (SA, X1, SB, X2, OUT)
+  /\ space_multiply_call = (X1, X2, OUT) /\ space_divide_call = (X1, X2, OUT).
+Proof. repeat split; reflexivity. Qed.
+
+Section Bridge.
+Context {T : Type} `{Num T}.
+
+Lemma ps_map3p_id (op : leafop) :
+  forall (sp : space) (x1 x2 out : elem) (s : store T),
+  ps_map3p (X1, X2, OUT) op sp x1 x2 out s = ps_map3 op sp x1 x2 out s.
+Proof.
+  intros sp.
+  apply (space_mut
+    (fun sp => forall x1 x2 out s, ps_map3p (X1, X2, OUT) op sp x1 x2 out s = ps_map3 op sp x1 x2 out s)
+    (fun sps => forall p1 p2 po s, ps_map3ps (X1, X2, OUT) op sps p1 p2 po s = ps_map3s op sps p1 p2 po s)).
+  - intros fl x1 x2 out s. reflexivity.
+  - intros sps IH x1 x2 out s. destruct x1 as [?|p1], x2 as [?|p2], out as [?|po]; try reflexivity.
+    cbn [ps_map3p ps_map3]. apply IH.
+  - intros p1 p2 po s. reflexivity.
+  - intros sp' IHsp sps IHsps p1 p2 po s.
+    destruct p1 as [|x p1], p2 as [|y p2], po as [|o po]; try reflexivity.
+    change (ps_map3ps (X1, X2, OUT) op (SCons sp' sps) (ECons x p1) (ECons y p2) (ECons o po) s)
+      with (bind (ps_map3p (X1, X2, OUT) op sp' x y o s) (ps_map3ps (X1, X2, OUT) op sps p1 p2 po)).
+    change (ps_map3s op (SCons sp' sps) (ECons x p1) (ECons y p2) (ECons o po) s)
+      with (bind (ps_map3 op sp' x y o s) (ps_map3s op sps p1 p2 po)).
+    rewrite IHsp. destruct (ps_map3 op sp' x y o s) as [s1 | | |]; cbn [bind]; [apply IHsps | reflexivity ..].
+Qed.
+
+(* np.multiply / np.divide write EVERY entry of out from the operands: whatever out held before
+   (any carrier, in particular the poisoned one: garbage may be None everywhere) *)
+Lemma multiply_old_out (x1 x2 out : nat) (s : store T) (garbage : list T) :
+  out <> x1 -> out <> x2 ->
+  exists s', multiply_impl x1 x2 out (upd s out garbage) = Ok s'
+    /\ s' out = vmul (s x1) (s x2) /\ forall j, j <> out -> s' j = s j.
+Proof.
+  intros H1 H2. unfold multiply_impl, ufunc_impl. cbn [tensor_multiply_call pick3 uf_fn].
+  eexists. split; [reflexivity|]. split.
+  - rewrite upd_same, !upd_other by congruence. reflexivity.
+  - intros j Hj. rewrite !upd_other by exact Hj. reflexivity.
+Qed.
+Lemma divide_old_out (x1 x2 out : nat) (s : store T) (garbage : list T) :
+  out <> x1 -> out <> x2 ->
+  exists s', divide_impl x1 x2 out (upd s out garbage) = Ok s'
+    /\ s' out = vdiv (s x1) (s x2) /\ forall j, j <> out -> s' j = s j.
+Proof.
+  intros H1 H2. unfold divide_impl, ufunc_impl. cbn [tensor_divide_call pick3 uf_fn].
+  eexists. split; [reflexivity|]. split.
+  - rewrite upd_same, !upd_other by congruence. reflexivity.
+  - intros j Hj. rewrite !upd_other by exact Hj. reflexivity.
+Qed.
+End Bridge.
+
 (* ---------- the three space operations ---------- *)
 Section Ops.
 Context {T : Type} {N : Num T} {F : NumField T}.
@@ -149,7 +212,7 @@ Definition cast_of (fl : bool) : T -> T := if fl then (fun u => u) else icast.
 Lemma lincomb_leaf_ok (a b : T) :
   leaf_ok (lincomb_leaf flg bdtf icast a b) (fun fl u v => map (cast_of fl) (vlin a u b v)) (fun _ => True).
 Proof.
-  intros fl i1 i2 io s _ L12 Lo. unfold lincomb_leaf, cast_of. destruct fl.
+  intros fl i1 i2 io s _ L12 Lo. unfold lincomb_leaf, tensor_lincomb, cast_of. cbn [elems3 discr_lincomb_call tensor_lincomb_call pick3 sval2 sval e_a e_b]. destruct fl.
   - destruct (lincomb_impl_correct true (bdtf io) (flg i1) (flg i2) (flg io) a b i1 i2 io s L12 Lo) as (s' & E & Ho & Hf).
     exists s'. rewrite map_id. auto.
   - apply lincomb_impl_nonfloating; assumption.
@@ -157,13 +220,13 @@ Qed.
 
 Lemma multiply_leaf_ok : leaf_ok (@multiply_leaf T N) (fun _ u v => vmul u v) (fun _ => True).
 Proof.
-  intros fl i1 i2 io s _ _ _. unfold multiply_leaf, multiply_impl. eexists. split; [reflexivity|].
+  intros fl i1 i2 io s _ _ _. unfold multiply_leaf, multiply_impl, ufunc_impl. cbn [discr_multiply_call tensor_multiply_call pick3 uf_fn]. eexists. split; [reflexivity|].
   split; [apply upd_same | intros j Hj; apply upd_other; exact Hj].
 Qed.
 
 Lemma divide_leaf_ok : leaf_ok (@divide_leaf T N) (fun _ u v => vdiv u v) (fun fl => fl = true).
 Proof.
-  intros fl i1 i2 io s Hfl _ _. subst fl. unfold divide_leaf, divide_impl. eexists. split; [reflexivity|].
+  intros fl i1 i2 io s Hfl _ _. subst fl. unfold divide_leaf, divide_impl, ufunc_impl. cbn [discr_divide_call tensor_divide_call pick3 uf_fn]. eexists. split; [reflexivity|].
   split; [apply upd_same | intros j Hj; apply upd_other; exact Hj].
 Qed.
 
@@ -175,7 +238,7 @@ Theorem ps_lincomb_correct (sp : space) (a b : T) (x1 x2 out : elem) (s : store 
           s' (q_out q) = map (cast_of (q_fl q)) (vlin a (s (q_x1 q)) b (s (q_x2 q))))
     /\ (forall j, ~ In j (map q_out (quads sp x1 x2 out)) -> s' j = s j).
 Proof.
-  intros C1 C2 Co Hwf Hlen. unfold ps_lincomb. rewrite ps_map3_flat by assumption.
+  intros C1 C2 Co Hwf Hlen. unfold ps_lincomb. cbn [elems3 pspace_lincomb_call]. rewrite ps_map3p_id, ps_map3_flat by assumption.
   apply (seq_ops_correct _ _ _ (lincomb_leaf_ok a b)); auto.
 Qed.
 
@@ -186,7 +249,7 @@ Theorem ps_multiply_correct (sp : space) (x1 x2 out : elem) (s : store T) :
     /\ (forall q, In q (quads sp x1 x2 out) -> s' (q_out q) = vmul (s (q_x1 q)) (s (q_x2 q)))
     /\ (forall j, ~ In j (map q_out (quads sp x1 x2 out)) -> s' j = s j).
 Proof.
-  intros C1 C2 Co Hwf Hlen. unfold ps_multiply. rewrite ps_map3_flat by assumption.
+  intros C1 C2 Co Hwf Hlen. unfold ps_multiply, pspace_multiply_call. rewrite ps_map3p_id, ps_map3_flat by assumption.
   apply (seq_ops_correct _ _ _ multiply_leaf_ok); auto.
 Qed.
 
@@ -198,7 +261,7 @@ Theorem ps_divide_correct (sp : space) (x1 x2 out : elem) (s : store T) :
     /\ (forall q, In q (quads sp x1 x2 out) -> s' (q_out q) = vdiv (s (q_x1 q)) (s (q_x2 q)))
     /\ (forall j, ~ In j (map q_out (quads sp x1 x2 out)) -> s' j = s j).
 Proof.
-  intros C1 C2 Co Hfl Hwf Hlen. unfold ps_divide. rewrite ps_map3_flat by assumption.
+  intros C1 C2 Co Hfl Hwf Hlen. unfold ps_divide, pspace_divide_call. rewrite ps_map3p_id, ps_map3_flat by assumption.
   apply (seq_ops_correct _ _ _ divide_leaf_ok); auto.
 Qed.
 End Ops.
